@@ -95,7 +95,7 @@ type c05Stream struct{}
 func (c05Stream) Name() string               { return "c05" }
 func (c05Stream) CaseTimeout() time.Duration { return 60 * time.Second }
 func (c05Stream) Rule() string {
-	return "one real server, one client connection (plain / TLS listener / StartTLS-upgraded), N pipelined search requests (N 2..400) whose handlers rendezvous and then each write K entries of S bytes (S from 10 bytes to 1 MiB, i.e. far beyond the 4 KiB write buffer) plus a SearchDone, with fast or slow readers and GOMAXPROCS 1..16; in one case of six the client keeps the pipeline full and Stop is called after the third frame (then every frame up to the hang-up must still be whole and in per-writer order, the notice of disconnection included); oracle: the received stream splits into whole LDAPMessages, exactly one per successful Write, per-writer order preserved, nothing duplicated or lost; the hook trace (locked/written/flushed/unlock) is replayed through the Lean writer model; non-trivial = N >= 2 writers overlapping in time, distinct by scenario"
+	return "one real server, one client connection (plain / TLS listener / StartTLS-upgraded), N pipelined search requests (N 2..400) whose handlers rendezvous and then each write K entries of S bytes (S from 10 bytes to 1 MiB, i.e. far beyond the 4 KiB write buffer) plus a SearchDone, with fast or slow readers and GOMAXPROCS 1..16; in one case of eight the client sends its searches and an Unbind and starts reading 300 ms later (every frame must still arrive before the hang-up); in one case of six the client keeps the pipeline full and Stop is called after the third frame (then every frame up to the hang-up must still be whole and in per-writer order, the notice of disconnection included); oracle: the received stream splits into whole LDAPMessages, exactly one per successful Write, per-writer order preserved, nothing duplicated or lost; the hook trace (locked/written/flushed/unlock) is replayed through the Lean writer model; non-trivial = N >= 2 writers overlapping in time, distinct by scenario"
 }
 
 func (c05Stream) Generate(rng *rand.Rand, n int, thorough bool) []Case {
@@ -113,6 +113,13 @@ func (c05Stream) Generate(rng *rand.Rand, n int, thorough bool) []Case {
 			size = 1 << 20
 			w = 4
 			k = 2
+		}
+		if rng.Intn(8) == 0 {
+			// the client pipelines its searches and an Unbind, and only then starts to read, slowly: everything
+			// the handlers wrote successfully must still arrive before the server hangs up
+			cs = append(cs, Case{Line: fmt.Sprintf("c05 n=%d k=%d size=%d mode=%s slow=1 procs=%d unbind=1", []int{4, 8}[rng.Intn(2)], 3+rng.Intn(3),
+				[]int{20000, 100000}[rng.Intn(2)], modes[rng.Intn(4)], []int{2, 4, 16}[rng.Intn(3)]), Kind: "unbind"})
+			continue
 		}
 		if rng.Intn(6) == 0 {
 			// Stop arrives while the client is still pipelining and handlers are writing
@@ -174,6 +181,9 @@ func (c05Stream) Impl(c Case) string {
 		req = append(req, nd.Ser()...)
 	}
 	stopMode := p["stop"] == "1"
+	if p["unbind"] == "1" {
+		req = append(req, Seq(Int(2, 99999), P(1, 2, nil)).Ser()...)
+	}
 	go func() {
 		_ = cl.send(req)
 		for i := n; stopMode; i++ {
@@ -189,6 +199,9 @@ func (c05Stream) Impl(c Case) string {
 	next := map[int64]int{}
 	verdict := "ok"
 	frames := 0
+	if p["unbind"] == "1" {
+		time.Sleep(300 * time.Millisecond)
+	}
 	for stopMode || done < n {
 		to := 30 * time.Second
 		if stopMode {
